@@ -3,9 +3,16 @@ package server
 // Verification driver for C09, legacy push path (PushModel → uploadBlob → blobUpload.Prepare/Run).
 // Added to the package at build time with `go test -overlay`; never committed to /repo.
 //
-// http.DefaultTransport is replaced by an in-memory registry that answers every request from a
-// per-layer script and logs the requests in the order received.  Each case runs in a
-// testing/synctest bubble (the retry sleeps of 1..32 s and the 60 ms progress ticker are fake time).
+// http.DefaultTransport is replaced by an in-memory registry that answers every physical request
+// from a per-layer script — any status (1xx, 2xx, 3xx with or without Location, 4xx, 5xx), so that
+// net/http's redirect handling (per method and body kind) is part of what is observed — and logs
+// the requests in the order received.  Each case runs in a testing/synctest bubble (the retry
+// sleeps of 1..32 s and the 60 ms progress ticker are fake time).
+//
+// Not scripted (documented in notes/C09.md): 401 (token dance), a final 201 to the POST ("mounted":
+// blobUpload.Run then blocks for ever on a nil channel), a final 307 to a PATCH try (the
+// redirected-upload path; a 307 without Location followed by a good retry blocks for ever on the
+// one-slot nextURL channel).
 
 import (
 	"context"
@@ -26,22 +33,43 @@ import (
 	"github.com/ollama/ollama/zzverif"
 )
 
+type c09LResp struct {
+	status int
+	loc    bool
+}
+
 type c09LegLayer struct {
-	head   int // 0 present, 1 absent, 2 error
-	post   bool
-	patch  []bool
-	commit []bool
+	head, post    []c09LResp
+	patch, commit [][]c09LResp
+}
+
+type c09LegEvent struct {
+	layer  int // -1 manifest
+	kind   string
+	method string
+	status int
+}
+
+func (e c09LegEvent) String() string {
+	if e.layer < 0 {
+		return fmt.Sprintf("M:%s:%d", e.method, e.status)
+	}
+	return fmt.Sprintf("L%d%s:%s:%d", e.layer, e.kind, e.method, e.status)
 }
 
 type c09LegReg struct {
-	mu      sync.Mutex
-	layers  []c09LegLayer
-	index   map[string]int // digest -> layer
-	cur     int
-	pi, ci  []int
-	manOK   bool
-	log     []string
-	unknown []string
+	mu       sync.Mutex
+	layers   []c09LegLayer
+	man      []c09LResp
+	index    map[string]int // digest -> layer
+	cur      int
+	hi, pi   []int // next answer of the HEAD / POST exchange
+	at, ct   []int // current PATCH / commit try (-1: none yet)
+	ai, ci   []int // next answer within the current try
+	mi       int
+	events   []c09LegEvent
+	unknown  []string
+	repoPath string
 }
 
 func c09LegResp(req *http.Request, status int, hdr map[string]string) *http.Response {
@@ -53,11 +81,13 @@ func c09LegResp(req *http.Request, status int, hdr map[string]string) *http.Resp
 		Body: io.NopCloser(strings.NewReader("scripted")), Request: req, ProtoMajor: 1, ProtoMinor: 1, ContentLength: -1}
 }
 
-func c09pm(b bool) string {
-	if b {
-		return "+"
+func c09LNext(script []c09LResp, i *int) c09LResp {
+	r := c09LResp{200, false}
+	if *i < len(script) {
+		r = script[*i]
 	}
-	return "-"
+	*i++
+	return r
 }
 
 func (r *c09LegReg) RoundTrip(req *http.Request) (*http.Response, error) {
@@ -65,149 +95,143 @@ func (r *c09LegReg) RoundTrip(req *http.Request) (*http.Response, error) {
 		io.Copy(io.Discard, req.Body)
 		req.Body.Close()
 	}
+	if req.URL.Host == "" {
+		// the code built this URL from a missing Location header; net/http's transport refuses it
+		return nil, fmt.Errorf("http: no Host in request URL")
+	}
 	r.mu.Lock()
 	defer r.mu.Unlock()
 	p := req.URL.Path
+	from := req.URL.Query().Get("from")
+	var a c09LResp
+	layer, kind, next := -2, "", ""
 	switch {
-	case req.Method == "HEAD" && strings.Contains(p, "/blobs/"):
+	case strings.Contains(p, "/manifests/"):
+		layer = -1
+		a = c09LNext(r.man, &r.mi)
+		next = fmt.Sprintf("http://example.com%s?hop=%d", p, r.mi)
+	case strings.HasSuffix(p, "/blobs/uploads/"): // the POST exchange (first request)
+		layer, kind = r.cur, "p"
+	case strings.Contains(p, "/blobs/sha256:"): // the HEAD exchange
 		d := p[strings.LastIndex(p, "/")+1:]
 		i, ok := r.index[d]
-		if !ok {
-			r.unknown = append(r.unknown, "HEAD "+p)
-			return c09LegResp(req, 400, nil), nil
+		if ok {
+			layer, kind = i, "h"
+			r.cur = i
 		}
-		r.cur = i
-		r.log = append(r.log, fmt.Sprintf("H%d:%d", i, r.layers[i].head))
-		return c09LegResp(req, []int{200, 404, 500}[r.layers[i].head], nil), nil
-	case req.Method == "POST" && strings.HasSuffix(p, "/blobs/uploads/"):
-		i := r.cur
-		r.log = append(r.log, fmt.Sprintf("P%d%s", i, c09pm(r.layers[i].post)))
-		if !r.layers[i].post {
-			return c09LegResp(req, 500, nil), nil
+	case strings.HasPrefix(p, "/upload/"):
+		fmt.Sscanf(p, "/upload/%d", &layer)
+		if req.Method == "PATCH" { // a fresh PATCH try
+			kind = "a"
+			r.at[layer]++
+			r.ai[layer] = 0
+		} else { // a followed redirect of the POST exchange
+			kind = "p"
 		}
-		return c09LegResp(req, 202, map[string]string{"Location": fmt.Sprintf("http://example.com/upload/%d", i)}), nil
-	case req.Method == "PATCH" && strings.HasPrefix(p, "/upload/"):
-		i, _ := strconv.Atoi(strings.TrimPrefix(p, "/upload/"))
-		ok := true
-		if r.pi[i] < len(r.layers[i].patch) {
-			ok = r.layers[i].patch[r.pi[i]]
+	case strings.HasPrefix(p, "/commit/"):
+		fmt.Sscanf(p, "/commit/%d", &layer)
+		switch {
+		case from == "a" && req.Method == "PUT": // a fresh commit try
+			kind = "c"
+			r.ct[layer]++
+			r.ci[layer] = 0
+		case from == "a": // a followed redirect of a PATCH try
+			kind = "a"
+		default:
+			kind = "c"
 		}
-		r.pi[i]++
-		r.log = append(r.log, fmt.Sprintf("A%d%s", i, c09pm(ok)))
-		if !ok {
-			return c09LegResp(req, 500, nil), nil
-		}
-		return c09LegResp(req, 202, map[string]string{"Location": fmt.Sprintf("http://example.com/upload/%d", i)}), nil
-	case req.Method == "PUT" && strings.HasPrefix(p, "/upload/"):
-		i, _ := strconv.Atoi(strings.TrimPrefix(p, "/upload/"))
-		ok := true
-		if r.ci[i] < len(r.layers[i].commit) {
-			ok = r.layers[i].commit[r.ci[i]]
-		}
-		r.ci[i]++
-		r.log = append(r.log, fmt.Sprintf("C%d%s", i, c09pm(ok)))
-		if !ok {
-			return c09LegResp(req, 500, nil), nil
-		}
-		return c09LegResp(req, 201, nil), nil
-	case req.Method == "PUT" && strings.Contains(p, "/manifests/"):
-		r.log = append(r.log, "M")
-		if r.manOK {
-			return c09LegResp(req, 200, nil), nil
-		}
-		return c09LegResp(req, 500, nil), nil
 	}
-	r.unknown = append(r.unknown, req.Method+" "+req.URL.String())
-	return c09LegResp(req, 400, nil), nil
+	if layer == -2 || layer >= len(r.layers) {
+		r.unknown = append(r.unknown, req.Method+" "+req.URL.String())
+		return c09LegResp(req, 400, nil), nil
+	}
+	if layer >= 0 {
+		l := r.layers[layer]
+		switch kind {
+		case "h":
+			a = c09LNext(l.head, &r.hi[layer])
+			next = fmt.Sprintf("http://example.com%s?from=h&hop=%d", p, r.hi[layer])
+		case "p":
+			a = c09LNext(l.post, &r.pi[layer])
+			next = fmt.Sprintf("http://example.com/upload/%d?from=p&hop=%d", layer, r.pi[layer])
+		case "a":
+			var s []c09LResp
+			if r.at[layer] < len(l.patch) {
+				s = l.patch[r.at[layer]]
+			}
+			a = c09LNext(s, &r.ai[layer])
+			next = fmt.Sprintf("http://example.com/commit/%d?from=a&hop=%d", layer, r.ai[layer])
+		case "c":
+			var s []c09LResp
+			if r.ct[layer] < len(l.commit) {
+				s = l.commit[r.ct[layer]]
+			}
+			a = c09LNext(s, &r.ci[layer])
+			next = fmt.Sprintf("http://example.com/commit/%d?from=c&hop=%d", layer, r.ci[layer])
+		}
+	}
+	r.events = append(r.events, c09LegEvent{layer, kind, req.Method, a.status})
+	hdr := map[string]string{}
+	if a.loc {
+		hdr["Location"] = next
+	}
+	return c09LegResp(req, a.status, hdr), nil
 }
 
-func c09Bools(r *zzverif.Rng, failing bool) []bool {
-	var out []bool
-	switch {
-	case failing && r.Chance(1, 2): // exhausts maxRetries
-		for i := 0; i < maxRetries; i++ {
-			out = append(out, false)
+// every status but 401; per request kind further exclusions below
+var c09LStatuses = []int{100, 101, 199, 200, 201, 202, 204, 206, 300, 301, 302, 303, 304, 305, 307, 308, 399, 400, 403, 404, 409, 500, 503}
+
+func c09LGen(rng *zzverif.Rng, endings []c09LResp, exclude func(c09LResp) bool) []c09LResp {
+	var s []c09LResp
+	for rng.Chance(1, 4) && len(s) < 3 {
+		h := c09LResp{zzverif.Pick(rng, []int{301, 302, 303, 307, 308}), true}
+		if !exclude(h) {
+			s = append(s, h)
 		}
-	case failing:
-		for i := r.Intn(maxRetries); i > 0; i-- {
-			out = append(out, false)
-		}
-		out = append(out, true)
-	case r.Chance(1, 3):
-		out = append(out, true)
 	}
-	return out
+	for try := 0; ; try++ {
+		e := zzverif.Pick(rng, endings)
+		if rng.Chance(1, 4) {
+			e = c09LResp{zzverif.Pick(rng, c09LStatuses), rng.Bool()}
+		}
+		if !exclude(e) || try > 20 {
+			return append(s, e)
+		}
+	}
 }
 
-func c09ShowBools(bs []bool) string {
-	s := strconv.Itoa(len(bs))
-	for _, b := range bs {
-		if b {
-			s += " 1"
-		} else {
-			s += " 0"
+func c09LShow(rs []c09LResp) string {
+	s := strconv.Itoa(len(rs))
+	for _, r := range rs {
+		l := 0
+		if r.loc {
+			l = 1
 		}
+		s += fmt.Sprintf(" %d %d", r.status, l)
 	}
 	return s
 }
 
-func c09LegacyCase(t *testing.T, out *zzverif.Out, rng *zzverif.Rng, dir, tag string) {
-	t.Setenv("OLLAMA_MODELS", dir)
-	n := rng.Range(1, 4)
-	reg := &c09LegReg{index: map[string]int{}, manOK: !rng.Chance(1, 8)}
-	var m Manifest
-	m.SchemaVersion = 2
-	faulty := rng.Chance(1, 2)
-	hasCfg := rng.Chance(1, 3)
-	os.MkdirAll(filepath.Join(dir, "blobs"), 0o755)
-	for i := 0; i < n; i++ {
-		data := append([]byte(fmt.Sprintf("legacy-%d-", i)), rng.Bytes(rng.Range(1, 30))...)
-		sum := sha256.Sum256(data)
-		dig := fmt.Sprintf("sha256:%x", sum)
-		if err := os.WriteFile(filepath.Join(dir, "blobs", fmt.Sprintf("sha256-%x", sum)), data, 0o644); err != nil {
-			t.Fatal(err)
-		}
-		l := c09LegLayer{head: zzverif.Pick(rng, []int{0, 1, 1}), post: true}
-		if faulty {
-			switch rng.Intn(8) {
-			case 0:
-				l.head = 2
-			case 1:
-				l.post = false
-			case 2, 3:
-				l.patch = c09Bools(rng, true)
-			case 4, 5:
-				l.commit = c09Bools(rng, true)
-			}
-		}
-		if l.patch == nil {
-			l.patch = c09Bools(rng, false)
-		}
-		if l.commit == nil {
-			l.commit = c09Bools(rng, false)
-		}
-		reg.layers = append(reg.layers, l)
-		reg.index[dig] = i
-		layer := Layer{MediaType: "application/vnd.ollama.image.model", Digest: dig, Size: int64(len(data))}
-		if hasCfg && i == n-1 {
-			m.Config = layer
-		} else {
-			m.Layers = append(m.Layers, layer)
-		}
-		out.Count(fmt.Sprintf("legacy_head_%d", l.head))
+func c09LShowTries(ts [][]c09LResp) string {
+	s := strconv.Itoa(len(ts))
+	for _, t := range ts {
+		s += " " + c09LShow(t)
 	}
-	reg.pi, reg.ci = make([]int, n), make([]int, n)
+	return s
+}
+
+func c09LegacyRun(t *testing.T, dir string, reg *c09LegReg, m *Manifest) error {
+	t.Setenv("OLLAMA_MODELS", dir)
 	mp := ParseModelPath("example.com/library/push:latest")
 	fp, err := mp.GetManifestPath()
 	if err != nil {
 		t.Fatal(err)
 	}
 	os.MkdirAll(filepath.Dir(fp), 0o755)
-	mdata, _ := json.Marshal(&m)
+	mdata, _ := json.Marshal(m)
 	if err := os.WriteFile(fp, mdata, 0o644); err != nil {
 		t.Fatal(err)
 	}
-
 	old := http.DefaultTransport
 	http.DefaultTransport = reg
 	defer func() { http.DefaultTransport = old }()
@@ -217,6 +241,124 @@ func c09LegacyCase(t *testing.T, out *zzverif.Out, rng *zzverif.Rng, dir, tag st
 			func(api.ProgressResponse) {})
 		synctest.Wait()
 	})
+	return perr
+}
+
+func c09LegacyBlob(t *testing.T, dir string, data []byte) string {
+	os.MkdirAll(filepath.Join(dir, "blobs"), 0o755)
+	sum := sha256.Sum256(data)
+	if err := os.WriteFile(filepath.Join(dir, "blobs", fmt.Sprintf("sha256-%x", sum)), data, 0o644); err != nil {
+		t.Fatal(err)
+	}
+	return fmt.Sprintf("sha256:%x", sum)
+}
+
+func c09NewLegReg(n int) *c09LegReg {
+	r := &c09LegReg{index: map[string]int{}, layers: make([]c09LegLayer, n)}
+	r.hi, r.pi, r.ai, r.ci = make([]int, n), make([]int, n), make([]int, n), make([]int, n)
+	r.at, r.ct = make([]int, n), make([]int, n)
+	for i := range r.at {
+		r.at[i], r.ct[i] = -1, -1
+	}
+	return r
+}
+
+// c09ProbeStrict: does the tree take a non-2xx, non-error answer for a success?  The blob HEAD is
+// answered 304; the pinned code concludes "the registry has the blob" and PUTs the manifest.
+func c09ProbeStrict(t *testing.T) bool {
+	dir := t.TempDir()
+	reg := c09NewLegReg(1)
+	dig := c09LegacyBlob(t, dir, []byte("probe"))
+	reg.index[dig] = 0
+	reg.layers[0].head = []c09LResp{{304, false}}
+	m := &Manifest{SchemaVersion: 2, Layers: []Layer{{MediaType: "application/vnd.ollama.image.model", Digest: dig, Size: 5}}}
+	c09LegacyRun(t, dir, reg, m)
+	for _, e := range reg.events {
+		if e.layer < 0 {
+			return false
+		}
+	}
+	return true
+}
+
+func c09LegacyCase(t *testing.T, out *zzverif.Out, rng *zzverif.Rng, dir, tag string, idx int, strict bool) {
+	n := rng.Range(1, 4)
+	kinds := []string{"h", "p", "a", "c", "m"}
+	exhaustive := idx < len(kinds)*len(c09LStatuses)*2
+	if exhaustive {
+		n = 1
+	}
+	reg := c09NewLegReg(n)
+	var m Manifest
+	m.SchemaVersion = 2
+	faulty := rng.Chance(1, 2)
+	hasCfg := rng.Chance(1, 3) && !exhaustive
+	no401 := func(r c09LResp) bool { return r.status == 401 }
+	noPost := func(r c09LResp) bool { return r.status == 401 || r.status == 201 }
+	noPatch := func(r c09LResp) bool { return r.status == 401 || r.status == 307 }
+	absent, present := c09LResp{404, false}, c09LResp{200, false}
+	opened, stored := c09LResp{202, true}, c09LResp{201, false}
+	for i := 0; i < n; i++ {
+		data := append([]byte(fmt.Sprintf("legacy-%d-", i)), rng.Bytes(rng.Range(1, 30))...)
+		dig := c09LegacyBlob(t, dir, data)
+		l := c09LegLayer{head: []c09LResp{zzverif.Pick(rng, []c09LResp{present, absent, absent})}, post: []c09LResp{opened},
+			patch: [][]c09LResp{{opened}}}
+		if faulty {
+			if rng.Chance(1, 3) {
+				l.head = c09LGen(rng, []c09LResp{present, absent, absent, {500, false}, {304, false}}, no401)
+			}
+			if rng.Chance(1, 3) {
+				l.post = c09LGen(rng, []c09LResp{opened, opened, {500, false}, {202, false}}, noPost)
+			}
+			if rng.Chance(1, 3) {
+				l.patch = nil
+				for k := rng.Range(1, 7); k > 0; k-- {
+					l.patch = append(l.patch, c09LGen(rng, []c09LResp{opened, {500, false}, {503, false}, {202, false}, {308, true}}, noPatch))
+				}
+			}
+			if rng.Chance(1, 3) {
+				for k := rng.Range(1, 7); k > 0; k-- {
+					l.commit = append(l.commit, c09LGen(rng, []c09LResp{stored, {500, false}, {404, false}, {304, false}, {300, false}}, no401))
+				}
+			}
+		}
+		reg.layers[i] = l
+		reg.index[dig] = i
+		layer := Layer{MediaType: "application/vnd.ollama.image.model", Digest: dig, Size: int64(len(data))}
+		if hasCfg && i == n-1 {
+			m.Config = layer
+		} else {
+			m.Layers = append(m.Layers, layer)
+		}
+	}
+	if rng.Chance(1, 4) {
+		reg.man = c09LGen(rng, []c09LResp{{200, false}, {201, false}, {500, false}, {304, false}}, no401)
+	}
+	if exhaustive {
+		k, rest := idx/(len(c09LStatuses)*2), idx%(len(c09LStatuses)*2)
+		first := c09LResp{c09LStatuses[rest/2], rest%2 == 1}
+		l := c09LegLayer{head: []c09LResp{absent}, post: []c09LResp{opened}, patch: [][]c09LResp{{opened}}}
+		reg.man = nil
+		switch kinds[k] {
+		case "h":
+			l.head = []c09LResp{first, absent}
+		case "p":
+			if !noPost(first) {
+				l.post = []c09LResp{first, opened}
+			}
+		case "a":
+			if !noPatch(first) {
+				l.patch = [][]c09LResp{{first, opened}, {opened}}
+			}
+		case "c":
+			l.commit = [][]c09LResp{{first}}
+		case "m":
+			reg.man = []c09LResp{first}
+		}
+		reg.layers[0] = l
+		out.Count("legacy_exhaustive_first_answer")
+	}
+	perr := c09LegacyRun(t, dir, reg, &m)
 	res := "ok"
 	if perr != nil {
 		res = "err"
@@ -225,57 +367,73 @@ func c09LegacyCase(t *testing.T, out *zzverif.Out, rng *zzverif.Rng, dir, tag st
 	for _, u := range reg.unknown {
 		out.L2("driver-unexpected-request", tag, u)
 	}
+	st := 0
+	if strict {
+		st = 1
+	}
 	var sb strings.Builder
-	fmt.Fprintf(&sb, "legacy %d", n)
+	fmt.Fprintf(&sb, "legacy %d %d", st, n)
 	for _, l := range reg.layers {
-		post := 0
-		if l.post {
-			post = 1
-		}
-		fmt.Fprintf(&sb, " %d %d %s %s", l.head, post, c09ShowBools(l.patch), c09ShowBools(l.commit))
+		fmt.Fprintf(&sb, " %s %s %s %s", c09LShow(l.head), c09LShow(l.post), c09LShowTries(l.patch), c09LShowTries(l.commit))
 	}
-	mok := 0
-	if reg.manOK {
-		mok = 1
-	}
-	fmt.Fprintf(&sb, " %d", mok)
+	fmt.Fprintf(&sb, " %s", c09LShow(reg.man))
 	op := sb.String()
-	out.Case(op, fmt.Sprintf("%s res=%s", strings.Join(reg.log, " "), res))
+	var evs []string
+	for _, e := range reg.events {
+		evs = append(evs, e.String())
+		out.Count(fmt.Sprintf("legacy_answer_%dxx", e.status/100))
+	}
+	out.Case(op, fmt.Sprintf("%s res=%s", strings.Join(evs, " "), res))
 	if f, err := os.OpenFile(filepath.Join(zzverif.OutDir(), "tags.txt"), os.O_APPEND|os.O_CREATE|os.O_WRONLY, 0o644); err == nil {
 		fmt.Fprintln(f, tag) // line-aligned with ops.txt: lets the check replay an L1 disagreement
 		f.Close()
 	}
 
-	// L2 on the request log, independent of the model
+	// L2 on the request log alone: manifest requests come last; when one is sent, the last request
+	// the registry saw for every layer belongs to its HEAD exchange or to a commit try and was
+	// answered 2xx; success is reported only if the manifest exchange ended on a 2xx.
 	caseLine := tag + " :: " + op
-	ls := " log=" + strings.Join(reg.log, " ")
-	mi := -1
-	for i, e := range reg.log {
-		if e == "M" {
-			if mi >= 0 {
-				out.L2("push-manifest-twice", caseLine, "push-legacy"+ls)
-			}
-			mi = i
+	ls := "push-legacy log=" + strings.Join(evs, " ")
+	first := -1
+	for i, e := range reg.events {
+		if e.layer < 0 && first < 0 {
+			first = i
+		}
+		if e.layer >= 0 && first >= 0 {
+			out.L2("push-manifest-not-last", caseLine, ls)
+			break
 		}
 	}
-	if mi >= 0 && mi != len(reg.log)-1 {
-		out.L2("push-manifest-not-last", caseLine, "push-legacy"+ls)
-	}
-	if mi >= 0 {
-		for i := 0; i < n; i++ {
-			acc := false
-			for _, e := range reg.log[:mi] {
-				if e == fmt.Sprintf("H%d:0", i) || e == fmt.Sprintf("C%d+", i) {
-					acc = true
+	if first >= 0 {
+		for l := 0; l < n; l++ {
+			var last *c09LegEvent
+			for i := range reg.events[:first] {
+				if reg.events[i].layer == l {
+					last = &reg.events[i]
 				}
 			}
-			if !acc {
-				out.L2("push-manifest-before-layer-accepted", caseLine, fmt.Sprintf("push-legacy layer=%d%s", i, ls))
+			switch {
+			case last == nil:
+				out.L2("push-manifest-before-layer-accepted", caseLine, fmt.Sprintf("layer=%d no request at all; %s", l, ls))
+			case last.kind != "h" && last.kind != "c":
+				out.L2("push-manifest-before-layer-accepted", caseLine, fmt.Sprintf("layer=%d last request is not a HEAD or commit; %s", l, ls))
+			case last.status >= 400:
+				out.L2("push-manifest-after-upload-error", caseLine, fmt.Sprintf("layer=%d final request answered %d; %s", l, last.status, ls))
+			case last.status/100 != 2:
+				out.L2("push-manifest-after-non-2xx", caseLine, fmt.Sprintf("final-%s-answered=%dxx layer=%d status=%d; %s", last.kind, last.status/100, l, last.status, ls))
 			}
 		}
 	}
-	if perr == nil && mi < 0 {
-		out.L2("push-success-without-manifest", caseLine, "push-legacy"+ls)
+	if perr == nil {
+		lastEv := reg.events[len(reg.events)-1]
+		switch {
+		case first < 0 || lastEv.layer >= 0:
+			out.L2("push-success-without-manifest", caseLine, ls)
+		case lastEv.status >= 400:
+			out.L2("push-success-after-manifest-error", caseLine, ls)
+		case lastEv.status/100 != 2:
+			out.L2("push-manifest-after-non-2xx", caseLine, fmt.Sprintf("final-m-answered=%dxx status=%d; %s", lastEv.status/100, lastEv.status, ls))
+		}
 	}
 }
 
@@ -295,6 +453,10 @@ func TestVerifC09Legacy(t *testing.T) {
 			t.Fatalf("VERIF_REPLAY: not a legacy case header: %q", raw)
 		}
 	}
+	strict := c09ProbeStrict(t)
+	if strict {
+		out.Count("legacy_strict_2xx_present")
+	}
 	root := zzverif.NewRng(seed).Fork()
 	base := t.TempDir()
 	for i := 0; i < n; i++ {
@@ -303,7 +465,7 @@ func TestVerifC09Legacy(t *testing.T) {
 			continue
 		}
 		dir := filepath.Join(base, fmt.Sprintf("l%d", i))
-		c09LegacyCase(t, out, rng, dir, fmt.Sprintf("seed=%d kind=legacy idx=%d", seed, i))
+		c09LegacyCase(t, out, rng, dir, fmt.Sprintf("seed=%d kind=legacy idx=%d", seed, i), i, strict)
 		os.RemoveAll(dir)
 		out.Count("cases")
 		out.Count("legacy_cases")
